@@ -5873,7 +5873,22 @@ class Symbol:
 
             return BOOL_TO_STR[val]
 
-        if self.orig_type:  # STRING/INT/HEX
+        if self.orig_type:  # STRING/INT/HEX/FLOAT
+            # A value set indirectly by 'set default' takes precedence over the defaults
+            # (like for imply, only if the direct dependencies are met)
+            if expr_value(self.direct_dep):
+                for value, cond, _ in self.weak_rev_values:
+                    if expr_value(cond):
+                        if self.orig_type == STRING:
+                            if value.str_value:
+                                return value.str_value
+                        elif self.orig_type == FLOAT:
+                            if is_float(value.name):
+                                return _normalize_float(value.name)
+                        elif _is_base_n(value.name, _TYPE_TO_BASE[self.orig_type]):
+                            return value.name
+                        break
+
             for default, cond in self.defaults:
                 if expr_value(cond):
                     return default.str_value
